@@ -122,6 +122,13 @@ let drv_pure () =
                (if p.p_help then 1 else 0) (if p.p_version then 1 else 0) (o p.p_cfg) (o p.p_drop)
                (String.concat "" (List.map (fun s -> tok_str s ^ ",") p.p_w))
                (String.concat "" (List.map (fun s -> tok_str s ^ ",") p.p_e)))
+    | ["elfimg"; interp; phnum] ->
+        (* model only: the image ElfSpec.mk_elf builds (the one C07_elf_image_roundtrip speaks about) and what the
+           layout specification says of it *)
+        let img = mk_elf (str_tok interp) (nat_of_int (int_of_string phnum)) in
+        Printf.printf "elfimg %s %s\n" (tok_str img) (match elf_interp_spec img with Some s -> tok_str s | None -> "-")
+    | ["elfspec"; img] ->
+        Printf.printf "elfspec %s\n" (match elf_interp_spec (str_tok img) with Some s -> tok_str s | None -> "-")
     | "bm" :: g :: ops ->
         let b = ref (bm_create (nat_of_int (int_of_string g))) in
         let out = Buffer.create 16 in
